@@ -245,6 +245,8 @@ class BuildMatchStream(Stream):
         {"cfg": mk_cfg(), "rules": [mk_rule(toks_of("/p/<string:s>/<path:rest>"), "p")], "mounts": {}, "adapter": mk_adapter(), "endpoint": "p", "values": {"s": ["s", "a b;?#%é"], "rest": ["s", "x/y z/%2F"]}, "extra": {}, "method": None, "fe": False},
         {"cfg": mk_cfg(), "rules": [mk_rule(toks_of("/n/<int(fixed_digits=3, signed=True):i>/<float(signed=True):f>"), "n")], "mounts": {}, "adapter": mk_adapter(), "endpoint": "n", "values": {"i": ["i", -5], "f": ["f", "-12.25"]}, "extra": {}, "method": None, "fe": False},
         {"cfg": mk_cfg(), "rules": [mk_rule(toks_of("/blog/entry/<slug>"), "blog/show", dom=[["L", "api"]])], "mounts": {"0": {"prefix": "/blog", "subdomain": True}}, "adapter": mk_adapter(sub=""), "endpoint": "blog/show", "values": {"slug": ["s", "hello world"]}, "extra": {}, "method": None, "fe": False},
+        # F04b (known finding): the rebuilt URL is the rule's with more arguments
+        {"cfg": mk_cfg(rd=False), "rules": [mk_rule(toks_of("/x"), "e", defaults={"page": ["i", 1]}), mk_rule(toks_of("/y/<int:page>"), "e", defaults={"lang": ["s", "en"]})], "mounts": {}, "adapter": mk_adapter(), "endpoint": "e", "values": {}, "extra": {}, "method": None, "fe": False},
         # F04a regressions (repaired: AnyConverter.to_url quotes the item)
         {"cfg": mk_cfg(), "rules": [mk_rule(["/", ["L", "x"], "/", ["V", ["a", "a?b", "ok"], "v"]], "e")], "mounts": {}, "adapter": mk_adapter(), "endpoint": "e", "values": {"v": ["s", "a?b"]}, "extra": {}, "method": None, "fe": False},
         {"cfg": mk_cfg(), "rules": [mk_rule(["/", ["L", "x"], "/", ["V", ["a", "x#y", "%41", "a b", "é"], "v"], "/"], "e")], "mounts": {}, "adapter": mk_adapter(script="/app"), "endpoint": "e", "values": {"v": ["s", "%41"]}, "extra": {"q": ["s", "1"]}, "method": None, "fe": True},
@@ -284,6 +286,16 @@ class BuildMatchStream(Stream):
                     rest = r["toks"][j1 + 1 :]
                     if rest in ([], ["/"]) and r["toks"][k][1][0] != "p":
                         sib = mk_rule(r["toks"][: j0 - 1] + ["/", ["L", "default"]] + rest, endpoint=r["endpoint"], methods=r["methods"], dom=r["dom"], defaults={r["toks"][k][2]: canonical_value(rng, r["toks"][k][1])})
+                        if rng.random() < 0.5:
+                            # strictly inside the property's domain: its own literal first segment
+                            sib["toks"] = ["/", ["L", names[i] + "-d"]] + sib["toks"][2:]
+                        shape = rng.random()
+                        if shape < 0.2:
+                            # the variable rule carries an extra default-only argument (F04b family)
+                            r["defaults"] = {rng.choice(["lang", "fmt"]): rng.choice([["s", "en"], ["i", 0]])}
+                        elif shape < 0.35:
+                            # the defaults rule carries an extra default-only argument
+                            sib["defaults"][rng.choice(["lang", "fmt"])] = rng.choice([["s", "en"], ["i", 0]])
                         rules.append(sib)
             target = rng.choice(rules)
             values = {}
@@ -413,6 +425,15 @@ class BuildMatchStream(Stream):
             return f"build(match(url)) = {bytes.fromhex(u2[2:]).decode()!r} differs from url = {url!r}"
         return None
 
+    def finding_key(self, case, what):
+        # F04b: build() prefers the rule with more arguments, so the URL rebuilt from a match result can
+        # be another rule's when the endpoint's rules have unequal argument sets
+        if what.startswith("build(match(url)) ="):
+            args = {json.dumps(sorted({n for n, _ in rule_vars(r)} | set(r["defaults"]))) for r in case["rules"] if r["endpoint"] == case["endpoint"]}
+            if len(args) > 1:
+                return "F04b"
+        return None
+
     def nontrivial(self, case, real_out):
         return " ; M " in real_out
 
@@ -504,6 +525,7 @@ CHECK = Check(
         "floats are positional decimal text in Python's canonical spelling (repr): str(float) and float(text) are Python's and only correspondence-tested; int() / str(int) are modelled by Lean's decimal printer and the generated digit table (proved inverse)",
         "converse law is checked as build(match(build(endpoint, values))) = build(endpoint, values): a URL that is not in built form ('/007' for <int>) matches but rebuilds canonically ('/7'), by design",
         "negative min / max cannot be written in a rule string (werkzeug's converter-argument grammar has no sign), so signed converters are exercised with non-negative bounds",
+        "known finding F04b: build() prefers the rule with more arguments, so build(match(url)) can be another rule's URL when the endpoint's rules have unequal argument sets (witness build_match_fixpoint_map_level_false); defaults siblings are generated with equal and with unequal argument sets, with shared and with their own literal first segment",
         "F04a (AnyConverter.to_url returned the item unquoted) is repaired in /repo (3fc8bd3): the model quotes any-items with the BaseConverter safe set, toPython_toUrl_any is full strength, the former failing inputs are corpus regressions of both streams",
         "match_build is proved at rule level (rule_build_match_partial: every rule of the grammar without subdomain rule; the rule's own parts admit what it builds, groups = decoded converter outputs) and at map level on the decoded path (match_build_partial: on a map where no other rule admits the path - e.g. distinct literal first segments, walkVia_none_of_first_literal - the matcher returns that rule with exactly the built values plus defaults; build_selects_suitable_rule: MapAdapter.build takes the URL of a suitable rule of the endpoint); build_match_fixpoint is proved for the selected rule (build_match_fixpoint_partial). Not proved, stream-validated: the URL plumbing around the path (script root, host -> subdomain, query cut) and that build selects the same rule again for the matched values",
     ],
@@ -514,7 +536,7 @@ CHECK = Check(
 
 MANIFEST = {
     "level_text": "Machine-checked Lean 4 theorems about the model of URL building: percent-decoding undoes the builder's quoting for every text (unquote_quote: decide over all 256 bytes lifted to all strings by induction, UTF-8 round trip from Lean core), and to_python(unquote(to_url(v))) = v for every converter on its canonical domain - strings and paths (all text), ints incl. signed and zero-padded fixed_digits with min/max (decimal printing and reading proved inverse over the generated Unicode digit table), uuid, any, floats as canonical decimal text; and at rule level the rule's own compiled parts directly admit the percent-decoded path the rule builds, extracting exactly the decoded converter outputs (rule_build_match_partial: isolating converters and one path converter). The map-level build/match laws are validated by a differential stream over non-overlapping maps (model vs real code, character for character) with the property oracle on the real code.",
-    "level_note": "Trusted: Lean kernel; extract.py; harness; CPython urllib.parse/int/float/uuid (modelled, stream-validated). Partial: match_build is proved per converter, per rule and at map level on the decoded path for non-overlapping maps; build_match_fixpoint for the selected rule; URL plumbing and re-selection of the rule are stream-validated only; float <-> text is Python's.",
+    "level_note": "Trusted: Lean kernel; extract.py; harness; CPython urllib.parse/int/float/uuid (modelled, stream-validated). Partial: match_build is proved per converter, per rule and at map level on the decoded path for non-overlapping maps; build_match_fixpoint for the selected rule; URL plumbing and re-selection of the rule are stream-validated only; float <-> text is Python's. Known finding F04b.",
     "technique": "Lean 4 proof (decide +kernel over all bytes, induction over byte/digit lists, core UTF-8 and Nat.toDigits lemmas) + model/code correspondence",
     "design_ref": "DESIGN.md section 4, C04",
 }
